@@ -96,7 +96,8 @@ def json_mutations(text, rng, n):
         path = rng.choice([p for p in paths if p])
         parent = get(d, path[:-1])
         key = path[-1]
-        kind = rng.choice(["delete", "null", "string", "number", "huge", "negative", "list", "dict", "nest", "dup", "float", "bool", "emptystr"])
+        kind = rng.choice(["delete", "null", "string", "number", "huge", "negative", "list", "dict", "nest", "dup", "float", "bool", "emptystr",
+                           "emptylist", "shortlist", "longlist"])
         try:
             if kind == "delete":
                 del parent[key]
@@ -121,6 +122,12 @@ def json_mutations(text, rng, n):
                 parent[key] = x
             elif kind == "dup" and isinstance(parent, list):
                 parent.append(parent[key])
+            elif kind == "emptylist" and isinstance(parent[key], list):
+                parent[key] = []
+            elif kind == "shortlist" and isinstance(parent[key], list):
+                parent[key] = parent[key][:len(parent[key]) // 2]
+            elif kind == "longlist" and isinstance(parent[key], list):
+                parent[key] = parent[key] + parent[key][:3]
             elif kind == "float":
                 parent[key] = rng.choice([0.5, 1e308, -1e-320, 3.0])
             elif kind == "bool":
@@ -131,6 +138,20 @@ def json_mutations(text, rng, n):
                 out.append(json.dumps(d).encode())
             except (RecursionError, ValueError):
                 pass
+        except (KeyError, IndexError, TypeError):
+            pass
+    # every list-valued field: emptied / halved / extended (length invariants between parallel arrays)
+    for path in paths:
+        if not path:
+            continue
+        try:
+            if isinstance(get(doc, path), list) and get(doc, path) and not isinstance(get(doc, path)[0], (dict, list)):
+                for how in ("empty", "half", "extend"):
+                    d = json.loads(text)
+                    parent = get(d, path[:-1])
+                    v = parent[path[-1]]
+                    parent[path[-1]] = [] if how == "empty" else (v[:len(v) // 2] if how == "half" else v + v[:3])
+                    out.append(json.dumps(d).encode())
         except (KeyError, IndexError, TypeError):
             pass
     # nesting bomb and junk
